@@ -244,6 +244,8 @@ class PoolScenario(Scenario):
                 return x
 
             o = call(f)
+            if o.ok:
+                w.meta[st["l"]]["mut"] = w.meta[st["l"]].get("mut", True) and w.meta[st["r"]].get("mut", True)
             if o.ok and o.value is not a:
                 w.heap[st["l"]] = o.value  # what the caller's variable would now hold
                 w.info["identity_changed"] = True
